@@ -40,7 +40,7 @@ def shape_values(shape):
     return out
 
 
-def clone_module(idx, shape, entry, named_mask, generic=False, extra=(), bounds=None):
+def clone_module(idx, shape, entry, named_mask, generic=False, extra=(), bounds=None, disc=False):
     """module with one type of the given shape (number of fields per variant) deriving Clone and a driver that
     executes every transition of MC_Clone from every state"""
     is_struct = len(shape) == 1
@@ -68,8 +68,9 @@ def clone_module(idx, shape, entry, named_mask, generic=False, extra=(), bounds=
         body, kind = decl(0, shape[0])
         lines.append("    %s pub struct T%s %s%s" % (derive_head(traits, entry), g, body, "" if kind == "named" else ";"))
     else:
-        vs = ", ".join("A%d %s" % (vi, decl(vi, n)[0]) for vi, n in enumerate(shape))
-        lines.append("    %s pub enum T%s { %s }" % (derive_head(traits, entry), g, vs))
+        # explicit discriminants (out of declaration order) need a primitive representation
+        vs = ", ".join("A%d %s%s" % (vi, decl(vi, n)[0], (" = %d" % ((7 * (vi + 3)) % 11)) if disc else "") for vi, n in enumerate(shape))
+        lines.append("    %s %spub enum T%s { %s }" % (derive_head(traits, entry), "#[repr(u8)] " if disc else "", g, vs))
     TT = "T" + inst
     # constructor and projection (no Clone involved)
     lines.append("    fn mk(v: usize, x: &[u8]) -> %s { match v {" % TT)
@@ -149,19 +150,24 @@ def clone_history_module(idx, shape, entry, named_mask, script):
 # ------------------------------------------------------------------------------------------------
 # C08
 # ------------------------------------------------------------------------------------------------
-def ops_module(idx, n, kind, entry, ops=None, generic=False, bounds=None):
+def ops_module(idx, n, kind, entry, ops=None, generic=False, bounds=None, selfbound=None):
     """struct with n Tm fields deriving all 22 operator traits; driver exercises every form"""
     ops = ops or BINOPS
     traits = list(ops) + [o + "Assign" for o in ops] + ["Neg", "Not"]
     ty = "X" if generic else "::dx_support::Tm"
     g = "<X>" if generic else ""
+    wh = ""
+    if generic and selfbound == "inline":
+        g = "<X: ::dx_support::Rel<Self>>"
+    elif generic and selfbound == "where":
+        wh = " where X: ::dx_support::Rel<Self>"
     TT = "T<::dx_support::Tm>" if generic else "T"
     if kind == "unit":
         decl = "pub struct T%s;" % g if not generic else None
     elif kind == "named":
-        decl = "pub struct T%s { %s }" % (g, ", ".join("f%d: %s" % (j, ty) for j in range(n)))
+        decl = "pub struct T%s%s { %s }" % (g, wh, ", ".join("f%d: %s" % (j, ty) for j in range(n)))
     else:
-        decl = "pub struct T%s(%s);" % (g, ", ".join(ty for _ in range(n)))
+        decl = "pub struct T%s(%s)%s;" % (g, ", ".join(ty for _ in range(n)), wh)
     dtraits = list(traits)
     if bounds == "shared_empty":
         dtraits = dtraits + ["bound()"]
@@ -236,26 +242,41 @@ def refty(t, isref):
     return ("&" + t) if isref else t
 
 
-def implop_module(idx, op, base, rhs_self, want_bin, want_assign, base_is_assign=False, generic=False):
+GENERIC_OPERANDS = """    pub struct LT<G>(pub String, pub ::core::marker::PhantomData<G>);
+    impl<G> ::core::clone::Clone for LT<G> { fn clone(&self) -> Self { ::dx_support::log(format!("cloneL:{}", self.0)); LT(self.0.clone(), ::core::marker::PhantomData) } }
+    pub struct RT<G>(pub String, pub ::core::marker::PhantomData<G>);
+    impl<G> ::core::clone::Clone for RT<G> { fn clone(&self) -> Self { ::dx_support::log(format!("cloneR:{}", self.0)); RT(self.0.clone(), ::core::marker::PhantomData) } }"""
+
+
+def implop_module(idx, op, base, rhs_self, want_bin, want_assign, base_is_assign=False, generic=None):
     """user impl of `op` in base form (bl, br) carrying #[derive_ex(..)]; returns (source, request-for-inproc, descriptor)"""
     bl, br = base
     L, R = ty_of("l", rhs_self), ty_of("r", rhs_self)
+    ig, iw, mk2 = "", "", ""
+    if generic:
+        L, R = L + "<G>", R + "<G>"
+        mk2 = ", ::core::marker::PhantomData"
+        if generic == "where":
+            ig, iw = "<G>", " where G: ::core::marker::Copy, Self: ::core::marker::Sized"
+        else:
+            ig = "<G: ::core::marker::Copy + ::dx_support::Rel<Self>>"
     fn = FN[op]
     req = ([op] if want_bin else []) + ([op + "Assign"] if want_assign else [])
     attr = ", ".join(req)
     if base_is_assign:
-        impl = ("impl ::core::ops::%sAssign<%s> for %s { fn %s_assign(&mut self, rhs: %s) { ::dx_support::log(\"call\".to_string()); "
-                "self.0 = format!(\"assigned({},{})\", self.0, rhs.0); } }" % (op, refty(R, br == "r"), L, fn, refty(R, br == "r")))
+        impl = ("impl%s ::core::ops::%sAssign<%s> for %s%s { fn %s_assign(&mut self, rhs: %s) { ::dx_support::log(\"call\".to_string()); "
+                "self.0 = format!(\"assigned({},{})\", self.0, rhs.0); } }" % (ig, op, refty(R, br == "r"), L, iw, fn, refty(R, br == "r")))
     else:
-        impl = ("impl ::core::ops::%s<%s> for %s { type Output = %s; fn %s(self, rhs: %s) -> %s { ::dx_support::log(\"call\".to_string()); "
-                "%s(format!(\"base({},{})\", self.0, rhs.0)) } }" % (op, refty(R, br == "r"), refty(L, bl == "r"), L, fn, refty(R, br == "r"), L, L))
-    lines = ["pub mod m%d {" % idx, LOCAL_OPERANDS, "    #[::derive_ex::derive_ex(%s)] %s" % (attr, impl)]
+        ctor = L.split("<")[0]
+        impl = ("impl%s ::core::ops::%s<%s> for %s%s { type Output = %s; fn %s(self, rhs: %s) -> %s { ::dx_support::log(\"call\".to_string()); "
+                "%s(format!(\"base({},{})\", self.0, rhs.0)%s) } }" % (ig, op, refty(R, br == "r"), refty(L, bl == "r"), iw, L, fn, refty(R, br == "r"), L, ctor, mk2))
+    lines = ["pub mod m%d {" % idx, GENERIC_OPERANDS if generic else LOCAL_OPERANDS, "    #[::derive_ex::derive_ex(%s)] %s" % (attr, impl)]
     lines.append("    fn counts(lg: &[String]) -> (usize, usize, usize) { (lg.iter().filter(|s| *s == \"call\").count(), "
                  "lg.iter().filter(|s| s.starts_with(\"clone\") && s.ends_with(\":L\")).count(), lg.iter().filter(|s| s.starts_with(\"clone\") && s.ends_with(\":R\")).count()) }")
     lines.append("    pub fn run() -> String {\n        let mut out = String::new();")
     s = SYM[op]
-    mkl = "%s(\"L\".to_string())" % L
-    mkr = "%s(\"R\".to_string())" % R
+    mkl = "%s(\"L\".to_string()%s)" % (L.replace("<G>", "::<u8>"), mk2)
+    mkr = "%s(\"R\".to_string()%s)" % (R.replace("<G>", "::<u8>"), mk2)
 
     def emit(ev, form, result_expr, unchanged_expr, key):
         lines.append("          let (c, lc, rc) = counts(&lg);")
@@ -287,7 +308,7 @@ def implop_module(idx, op, base, rhs_self, want_bin, want_assign, base_is_assign
                 lines.append("        }")
     lines.append("        out\n    }\n}")
     desc = {"op": op, "base": {"l": bl, "r": br}, "rhs_self": rhs_self, "want_bin": want_bin, "want_assign": want_assign,
-            "base_is_assign": base_is_assign}
+            "base_is_assign": base_is_assign, "generic": generic or ""}
     return "\n".join(lines), {"attr": attr, "item": impl}, desc
 
 
@@ -296,8 +317,8 @@ def implop_module(idx, op, base, rhs_self, want_bin, want_assign, base_is_assign
 # ------------------------------------------------------------------------------------------------
 FLAGS = ["{:?}", "{:#?}", "{:5?}", "{:<8?}", "{:>8?}", "{:^8?}", "{:*^10?}", "{:+?}", "{:.1?}", "{:x?}", "{:X?}", "{:#x?}", "{:08.2?}",
          "{:#10?}", "{:+.3?}", "{:#<6?}", "{:02?}"]
-LEAF_TYPES = [("i32", ["7", "-3"]), ("f64", ["1.5", "-0.25"]), ("&'static str", ["\"hi\"", "\"a b\""]), ("::core::option::Option<i32>", ["::core::option::Option::Some(4)", "::core::option::Option::None"]),
-              ("Inner", ["Inner { p: 1, q: -2 }"]), ("(u8, bool)", ["(3, true)"]), ("::std::vec::Vec<u8>", ["vec![1, 2]", "vec![]"])]
+LEAF_TYPES = [("i32", ["7i32", "-3i32"]), ("f64", ["1.5f64", "-0.25f64"]), ("&'static str", ["\"hi\"", "\"a b\""]), ("::core::option::Option<i32>", ["::core::option::Option::Some(4i32)", "::core::option::Option::<i32>::None"]),
+              ("Inner", ["Inner { p: 1, q: -2 }"]), ("(u8, bool)", ["(3u8, true)"]), ("::std::vec::Vec<u8>", ["::std::vec![1u8, 2u8]", "::std::vec::Vec::<u8>::new()"])]
 INNER = "#[derive(Debug, Clone)] pub struct Inner { pub p: i32, pub q: i32 }"
 
 
@@ -324,7 +345,7 @@ def debug_module(idx, desc, entry, rnd):
         if v["shape"] == "tuple":
             return "(" + ", ".join(fs) + ")"
         return ""
-    g = "<G>" if gen else ""
+    g = ("<G: ?::core::marker::Sized>" if desc.get("maybe_unsized") else "<G>") if gen else ""
 
     def item(twin):
         head = "#[derive(Debug)]" if twin else derive_head(["Debug"], entry)
@@ -388,26 +409,31 @@ DV_SRC = {"none": None, "str": "\"abc\"", "path": "::dx_support::SRC7", "assoc_p
 DV_TY = {"int": "u8", "neg": "i8"}
 
 
-def default_module(idx, P, entry):
+def default_module(idx, P, entry, bounds=None):
     """P: {"kind", "tv": "none"|"call"|"path", "variants": [{"shape", "dmark", "vv": "none"|"call", "fields": [{"dv", "underscore": bool}]}]}
     every field has type Pr (provenance recording)"""
     lines = ["pub mod m%d {" % idx, "    use ::dx_support::Pr;"]
-    head = derive_head(["Default"], entry)
+    head = derive_head({None: ["Default"], "this_empty": ["Default(bound())"], "shared_empty": ["Default", "bound()"], "this_dd": ["Default(bound(..))"],
+                        "field": ["Default"], "type_helper": ["Default"]}[bounds], entry)
     tl = ""
+    tb = ", bound()" if bounds == "type_helper" else ""
     if P["tv"] == "call":
-        tl = "#[default(Self::special())] "
+        tl = "#[default(Self::special()%s)] " % tb
     elif P["tv"] == "path":
-        tl = "#[default(SPECIAL)] "
+        tl = "#[default(SPECIAL%s)] " % tb
+    elif tb:
+        tl = "#[default(_%s)] " % tb
 
     def fsrc(v):
         fs = []
         for j, f in enumerate(v["fields"]):
             e = DV_SRC[f["dv"]]
             at = ""
+            fb = ", bound()" if bounds == "field" else ""
             if e is not None:
-                at = "#[default(%s)] " % e
-            elif f.get("underscore"):
-                at = "#[default(_)] "
+                at = "#[default(%s%s)] " % (e, fb)
+            elif f.get("underscore") or fb:
+                at = "#[default(_%s)] " % fb
             fs.append(at + (("f%d: " % j) if v["shape"] == "named" else "") + DV_TY.get(f["dv"], "Pr"))
         if v["shape"] == "named":
             return "{ " + ", ".join(fs) + " }"
@@ -465,6 +491,25 @@ def default_module(idx, P, entry):
 # ------------------------------------------------------------------------------------------------
 # C18 Deref
 # ------------------------------------------------------------------------------------------------
+DEREF_SELF = """pub mod m%d {
+    %s pub struct T<G>(::std::vec::Vec<(G, ::core::option::Option<::std::boxed::Box<Self>>)>);
+    pub fn run() -> String {
+        let mut x: T<u8> = T(::std::vec![(1u8, ::core::option::Option::None)]);
+        let same_address = { let p: *const ::std::vec::Vec<(u8, ::core::option::Option<::std::boxed::Box<T<u8>>>)> = &x.0; let q: *const ::std::vec::Vec<(u8, ::core::option::Option<::std::boxed::Box<T<u8>>>)> = <T<u8> as ::core::ops::Deref>::deref(&x); ::core::ptr::eq(p, q) };
+        let target_is_field_type = ::core::any::type_name::<<T<u8> as ::core::ops::Deref>::Target>() == ::core::any::type_name::<::std::vec::Vec<(u8, ::core::option::Option<::std::boxed::Box<T<u8>>>)>>();
+        let mut_same_address = { let p: *const ::std::vec::Vec<(u8, ::core::option::Option<::std::boxed::Box<T<u8>>>)> = &x.0; let q: *const ::std::vec::Vec<(u8, ::core::option::Option<::std::boxed::Box<T<u8>>>)> = <T<u8> as ::core::ops::DerefMut>::deref_mut(&mut x); ::core::ptr::eq(p, q) };
+        <T<u8> as ::core::ops::DerefMut>::deref_mut(&mut x).push((2u8, ::core::option::Option::None));
+        let write_lands = x.0.len() == 2;
+        format!("{{\"id\":%d,\"same_address\":{},\"target_is_field_type\":{},\"mut_same_address\":{},\"write_lands\":{}}}\n",
+                same_address, target_is_field_type, mut_same_address, write_lands)
+    }
+}"""
+
+
+def deref_self_module(idx, entry):
+    return DEREF_SELF % (idx, derive_head(["Deref", "DerefMut"], entry), idx)
+
+
 DEREF_TYPES = [("::std::string::String", "::std::string::String::from(\"s\")", "::std::string::String::from(\"w\")"),
                ("::std::boxed::Box<[u8]>", "::std::vec![1u8, 2].into_boxed_slice()", "::std::vec![9u8].into_boxed_slice()"),
                ("u8", "3u8", "8u8"), ("::std::vec::Vec<u32>", "::std::vec![1u32]", "::std::vec![5u32, 6]"), ("&'static str", "\"x\"", "\"yy\"")]
